@@ -673,6 +673,15 @@ class Interp:
                         raise OutsideSubset("non-string dict key as dyn")
                     m = z3.Store(m, z3.StringVal(k), self.to_dyn(st, x))
                 return smt.dyn_ctor("DDict")(m)
+        if isinstance(v, Opaque):
+            # a value the engine knows nothing about (e.g. a pathlib.Path) stored in a record: an arbitrary dyn, a fresh
+            # function of the comprehension binders in scope; nothing can be proved about it beyond being passed on
+            n = st.ghost.setdefault("__opq_dyn", [0])
+            n[0] += 1
+            bs = list(getattr(st, "bound", []) or [])
+            if bs:
+                return smt.ufunc(f"opq.dyn!{n[0]}", *([b.sort() for b in bs] + [Dyn]))(*bs)
+            return z3.Const(f"opq.dyn!{n[0]}", Dyn)
         raise OutsideSubset(f"cannot convert {v!r} to dyn")
 
     # ================================================================= equality
